@@ -1223,10 +1223,14 @@ class FE:
                 # global atomic-write epoch changes (turns livelock into the deadlock check and keeps schedules finite)
                 em.load_sites = getattr(em, 'load_sites', 0) + 1   # a stutter needs the same program point (a loop re-executing this very load)
                 s.yield_point('verif_pend_load((void*)%s, %dU);' % (s.V(ins['pt'], ins['pv']), em.load_sites)); out.append('verif_did_load((void*)%s, %dU);' % (s.V(ins['pt'], ins['pv']), em.load_sites))
-            out.append('%s = *%s;' % (r, s.V(ins['pt'], ins['pv'])))
+            op_ = s.unpun_ptr(ins['t'], ins['pv'])
+            if op_ is not None: out.append('%s = (%s)*%s;' % (r, s.cty(ins['t']), op_[0]))
+            else: out.append('%s = *%s;' % (r, s.V(ins['pt'], ins['pv'])))
         elif op == 'store':
             if ins.get('atomic') and s.conc and em.o.yield_atomics: s.yield_point('verif_pend_run();')
-            out.append('*%s = %s;' % (s.V(ins['pt'], ins['pv']), s.V(ins['t'], ins['v'])))
+            op_ = s.unpun_ptr(ins['t'], ins['pv'])
+            if op_ is not None: out.append('*%s = (%s)%s;' % (op_[0], op_[1], s.V(ins['t'], ins['v'])))
+            else: out.append('*%s = %s;' % (s.V(ins['pt'], ins['pv']), s.V(ins['t'], ins['v'])))
             if ins.get('atomic') and em.o.conc: out.append('verif_atomic_epoch++;')
         elif op == 'getelementptr':
             e, cur = em.gep_expr(ins['bt'], s.V(ins['pt'], ins['pv']), ins['idx'], s.loc)
@@ -1389,7 +1393,44 @@ class FE:
                     if i2['op'] == 'bitcast' and isinstance(i2['v'], VLocal):
                         s.cast_users.setdefault(i2['v'].name, []).append(i2)
         szt, szv = ins['args'][0]
-        for u in s.cast_users.get(ins['res'], []):
+        if not hasattr(s, 'gep8_users'):
+            s.gep8_users = {}
+            for b in s.f.blocks:
+                for i2 in s.parsed[b.label]:
+                    if i2['op'] == 'getelementptr' and isinstance(i2['pv'], VLocal) and len(i2['idx']) == 1 and isinstance(i2['idx'][0][1], VInt) and i2['idx'][0][1].v == 8 \
+                            and isinstance(s.res(i2['bt']), TInt) and s.res(i2['bt']).n == 8:
+                        s.gep8_users.setdefault(i2['pv'].name, []).append(i2)
+        if not hasattr(s, 'store_elem'):
+            # value stored through a pointer that is a bitcast of T**: the value is a T*
+            s.store_elem = {}
+            for b in s.f.blocks:
+                for i2 in s.parsed[b.label]:
+                    if i2['op'] == 'store' and isinstance(i2['v'], VLocal) and isinstance(i2['pv'], VLocal):
+                        d2 = s.defs.get(i2['pv'].name)
+                        if d2 is not None and d2['op'] == 'bitcast':
+                            t0 = s.res(d2['t'])
+                            if isinstance(t0, TPtr) and isinstance(s.res(t0.to), TPtr):
+                                s.store_elem.setdefault(i2['v'].name, []).append(dict(t2=t0.to))
+        cap = s.em.o.alloc_cap
+        # array new with a cookie: new T[n] for T with a non-trivial destructor stores n in the 8 bytes before the array.
+        # With --alloc-cap the block becomes struct { uint64_t cookie; T a[k]; } so that the elements stay typed objects.
+        if cap and isinstance(szv, VLocal) and any(isinstance(s.res(u['t2']), TPtr) and isinstance(s.res(s.res(u['t2']).to), TInt) and s.res(s.res(u['t2']).to).n == 64 for u in s.cast_users.get(ins['res'], [])):
+            for g in s.gep8_users.get(ins['res'], []):
+                for u in s.cast_users.get(g['res'], []) + s.store_elem.get(g['res'], []):
+                    t2 = s.res(u['t2'])
+                    if not isinstance(t2, TPtr): continue
+                    et = t2.to; ret = s.res(et)
+                    if not isinstance(ret, (TStruct,)): continue
+                    esz = s.em.size_align(et)[0]
+                    if esz <= 0 or s.em.size_align(et)[1] > 8: continue
+                    s.em.need_complete(et); ct = s.cty(et); k = max(1, (cap - 8) // esz)
+                    nm = 'verif_CK%d' % len(s.em.cookie_structs)
+                    for nm2, (ct2, k2) in s.em.cookie_structs.items():
+                        if (ct2, k2) == (ct, k): nm = nm2
+                    s.em.cookie_structs[nm] = (ct, k)
+                    s.lines.append('__CPROVER_assert((uint64_t)%s <= %dULL, "modelling bound: variable-size allocation within --alloc-cap");' % (s.V(szt, szv), 8 + k * esz))
+                    return 'sizeof(struct %s)' % nm
+        for u in s.cast_users.get(ins['res'], []) + s.store_elem.get(ins['res'], []):
             t2 = s.res(u['t2'])
             if not isinstance(t2, TPtr): continue
             et = t2.to; ret = s.res(et)
@@ -1418,7 +1459,24 @@ class FE:
                         s.lines.append('__CPROVER_assert((uint64_t)%s <= %dULL, "modelling bound: variable-size allocation within --alloc-cap");' % (cnt, k))
                         return 'sizeof(%s) * %d' % (ct, k)
                     return 'sizeof(%s) * (uint64_t)%s' % (ct, cnt)
+                if cap and esz > 1 and not isinstance(ret, TInt):
+                    # size not of the form count * sizeof(T) (e.g. a byte difference): the capped block is still an array of T
+                    k = max(1, cap // esz)
+                    s.lines.append('__CPROVER_assert((uint64_t)%s <= %dULL, "modelling bound: variable-size allocation within --alloc-cap");' % (s.V(szt, szv), k * esz))
+                    return 'sizeof(%s) * %d' % (ct, k)
         return None
+
+    def unpun_ptr(s, t, pv):
+        """pointer load/store through a bitcast `U** -> T**` (clang's canonical form for moving a pointer without caring about its pointee):
+        access the slot with its own type and cast the *value*; CBMC treats a pointer-typed access through a differently typed pointer as a
+        byte_extract over the whole enclosing object (measured: minutes per store into a thread frame).  Returns (C pointer expr, C slot type) or None."""
+        if not isinstance(s.res(t), TPtr) or not isinstance(pv, VLocal): return None
+        d = s.defs.get(pv.name)
+        if d is None or d['op'] != 'bitcast' or not isinstance(d['v'], VLocal): return None
+        t0 = s.res(d['t'])
+        if not isinstance(t0, TPtr) or not isinstance(s.res(t0.to), TPtr): return None
+        if isinstance(s.res(s.res(t0.to).to), (TFunc,)): return None
+        return (s.V(d['t'], d['v']), s.cty(t0.to))
 
     def elem_type_of(s, v):
         """pointee type behind an i8* operand: looks through bitcast / zero-gep definitions"""
@@ -1858,7 +1916,7 @@ static inline uint64_t verif_abs64(uint64_t x) { return (int64_t)x < 0 ? -x : x;
 
 def emit_module(m, opts):
     em = Emitter(m, opts)
-    em.extra_globals = set(); em.bytes_structs = set()
+    em.extra_globals = set(); em.bytes_structs = set(); em.cookie_structs = {}
     bodies = []
     protos = []
     keep = None
@@ -2023,6 +2081,7 @@ def emit_module(m, opts):
     for n in m.named_order: out.append('struct S_%s;' % san(n))
     out += em.type_decls
     out += ['struct verif_B%d { uint8_t b[%d]; };' % (k, k) for k in sorted(em.bytes_structs)]
+    out += ['struct %s { uint64_t cookie; %s a[%d]; };' % (nm, ct, k) for nm, (ct, k) in sorted(em.cookie_structs.items())]
     out += gdecl
     out += eh
     if getattr(opts, 'conc', False):
